@@ -8,7 +8,7 @@
    event table [evs] the reader uses; n over ALL truncation lengths. *)
 From Coq Require Import NArith List Bool.
 Import ListNotations.
-Require Import UV.C12.Model UV.C12.Proofs UV.C12.Lines UV.C12.TextModel UV.C12.TaskTxt UV.C12.Scan.
+Require Import UV.C12.Model UV.C12.Proofs UV.C12.Lines UV.C12.TextModel UV.C12.TaskTxt UV.C12.Scan UV.C12.Mono.
 
 (* MAIN: for EVERY truncation length the reader reports exactly the records that are completely present in
    the first n bytes (header and payload), each with exactly its payload, and then ends with end of data. *)
@@ -192,3 +192,16 @@ Theorem C12_scan_prefix_example :
   prefix_vals ex_segs 35 = [SNum false 12; SNum false 345; SNum false 100].
 Proof. exact scan_prefix_example. Qed.
 Print Assumptions C12_scan_prefix_example.
+
+(* MONOTONE IN THE CRASH POINT: if the recorder (or the copy) got further - m >= n bytes of the same task file
+   survive - the reader reports what it reported for the n-byte file, unchanged and in the same order, followed by
+   zero or more further records: no record reported from a shorter file is taken back or altered by more data. *)
+Theorem C12_later_crash_extends : forall env evs wv rs n m,
+  wf_recs env evs rs = true -> n <= m ->
+  exists k, fst (read_file true env evs wv (firstn n (enc rs))) =
+            firstn k (fst (read_file true env evs wv (firstn m (enc rs)))).
+Proof. exact later_crash_extends. Qed.
+Print Assumptions C12_later_crash_extends.
+Theorem C12_whole_prefix_monotone : forall rs n m, n <= m -> exists k, whole_prefix rs n = firstn k (whole_prefix rs m).
+Proof. exact whole_prefix_mono. Qed.
+Print Assumptions C12_whole_prefix_monotone.
